@@ -258,7 +258,7 @@ func (bv *Binary) String() string {
 func (bv *Binary) ToKey(b *bytes.Buffer) {
 	b.WriteByte(0)
 	b.WriteByte(HkBinary)
-	b.Write(bv.bytes)
+	appendKeyBytes(b, string(bv.bytes))
 }
 
 func (bv *Binary) ToString(b io.Writer, s px.FormatContext, g px.RDetect) {
